@@ -262,3 +262,105 @@ Proof.
   - rewrite Nat.eqb_refl. eexists; split; [reflexivity | lia].
   - erewrite lookup_add_bytes by eauto. eexists; split; [reflexivity | lia].
 Qed.
+
+(* ------------------------------------------- interference freedom ------ *)
+
+Lemma pcinv_set_lock : forall c s x t, pcinv c (set_lock s x) t <-> pcinv c s t.
+Proof. intros. unfold pcinv, complete, zip_ok, mod_ok. destruct (tpc t); simpl; tauto. Qed.
+
+Lemma pcinv_stab : forall c s s' t, locked_pc (tpc t) = false -> stab c s s' -> pcinv c s t -> pcinv c s' t.
+Proof.
+  intros c s s' t L [A B C D]. unfold pcinv. destruct (tpc t); simpl in *; try discriminate; auto.
+  destruct r; auto. destruct (tkind t); auto.
+Qed.
+
+Lemma tinv_frame : forall c s s' i j t t' tj,
+  i <> j -> tinv c s i t -> tinv c s j tj -> frame s s' i t t' -> stab c s s' -> tinv c s' j tj.
+Proof.
+  intros c s s' i j t t' tj NE [Li _] [Lj [Kj Pj]] F ST.
+  destruct F as [[Lt [[-> _] | [LN [-> _]]]] | [Lt _]].
+  - split; [|split]; auto.
+  - split; [intros L; rewrite (Lj L) in LN; discriminate | split; [auto | apply pcinv_set_lock; auto]].
+  - assert (NL : locked_pc (tpc tj) = false).
+    { destruct (locked_pc (tpc tj)) eqn:E; auto. rewrite (Lj eq_refl) in Li. specialize (Li Lt). congruence. }
+    split; [intros L; congruence | split; [auto | eapply pcinv_stab; eauto]].
+Qed.
+
+(* ------------------------------------------------ the invariant is inductive *)
+
+Lemma inv_init : forall c, Inv c world0.
+Proof.
+  intros. constructor; simpl.
+  - constructor; simpl; intros; try discriminate; congruence.
+  - intros i t H. destruct i; discriminate.
+  - intros; discriminate.
+  - intros; discriminate.
+  - intros; discriminate.
+Qed.
+
+Lemma live_locked : forall p, locked_pc p = true -> live p = true.
+Proof. destruct p; simpl; auto; discriminate. Qed.
+
+Lemma inv_step : forall c w l w', env_ok c -> Inv c w -> step c w l = Some w' -> Inv c w'.
+Proof.
+  intros c w l w' EV [HS HT HL HZ HM] H. destruct l as [p k | p | i e]; simpl in H.
+  - (* Spawn *)
+    destruct (mem_nat p (crashed w)); try discriminate. inversion H; subst; clear H.
+    constructor; simpl; auto.
+    + intros i t N. apply nth_app_new in N. destruct N as [N | [-> ->]]; auto.
+      unfold tinv, pcinv. destruct k; simpl; (split; [intros; discriminate | split; [reflexivity | exact I]]).
+    + intros i Hi. destruct (HL i Hi) as [t [N L]]. exists t. split; auto.
+      rewrite nth_error_app1; auto. eapply nth_error_lt; eauto.
+  - (* Crash *)
+    inversion H; subst; clear H.
+    assert (KEEP : forall j t, nth_error (threads w) j = Some t -> locked_pc (tpc t) = true ->
+                     holder_in (threads w) p (lock (st w)) = true -> proc t <> p -> False).
+    { intros j t N L HI NP. destruct (HT j t N) as [LJ _]. rewrite (LJ L) in HI. simpl in HI. rewrite N in HI.
+      apply Nat.eqb_eq in HI. auto. }
+    constructor; simpl.
+    + destruct HS. destruct (holder_in _ _ _); constructor; simpl; auto.
+    + intros j t' N. rewrite nth_error_map in N. destruct (nth_error (threads w) j) as [t|] eqn:NJ; try discriminate.
+      inversion N; subst; clear N. destruct (HT j t NJ) as [LJ [KJ PJ]].
+      unfold kill. destruct (Nat.eqb (proc t) p && live (tpc t)) eqn:K.
+      * split; [|split]; simpl; auto; [intros; discriminate | exact I].
+      * assert (PJ' : forall x, pcinv c (set_lock (st w) x) t) by (intros; apply pcinv_set_lock; auto).
+        destruct (holder_in (threads w) p (lock (st w))) eqn:HI; (split; [|split]; auto).
+        intros L. exfalso. eapply KEEP; eauto. intros EQ. rewrite EQ, Nat.eqb_refl, (live_locked _ L) in K. discriminate.
+    + intros j Hj. destruct (holder_in (threads w) p (lock (st w))) eqn:HI; simpl in Hj; try discriminate.
+      destruct (HL j Hj) as [t [N L]]. exists t. split; auto.
+      rewrite nth_error_map, N. simpl. unfold kill.
+      unfold holder_in in HI. rewrite Hj, N in HI. rewrite HI. reflexivity.
+    + intros q Hq. specialize (HZ q Hq). unfold zip_ok in *. destruct (holder_in _ _ _); simpl; auto.
+    + intros q Hq. specialize (HM q Hq). unfold mod_ok in *. destruct (holder_in _ _ _); simpl; auto.
+  - (* thread step *)
+    destruct (nth_error (threads w) i) as [t|] eqn:N; try discriminate.
+    destruct (tstep c (st w) (ps w (proc t)) i t e) as [[[s' q'] t']|] eqn:TS; try discriminate.
+    inversion H; subst; clear H.
+    destruct (tstep_inv c _ _ _ _ _ _ _ _ EV HS (HT i t N) (HZ (proc t)) (HM (proc t)) TS)
+      as [HS' [HT' [ST [HZ' [HM' [PR [KD FR]]]]]]].
+    assert (LEN : i < length (threads w)) by (eapply nth_error_lt; eauto).
+    constructor; simpl; auto.
+    + intros j tj NJ. destruct (Nat.eq_dec i j) as [<- | NE].
+      * rewrite nth_upd_same in NJ by auto. inversion NJ; subst. auto.
+      * rewrite nth_upd_other in NJ by auto. apply (tinv_frame c (st w) s' i j t t' tj); auto.
+    + intros j Hj. destruct (Nat.eq_dec i j) as [<- | NE].
+      * exists t'. split. { apply nth_upd_same; auto. }
+        destruct FR as [[Lt [[-> Lt'] | [LN [-> Lt']]]] | [Lt [[_ Lt'] | [LN _]]]]; auto.
+        -- destruct (HL i Hj) as [t0 [N0 L0]]. congruence.
+        -- congruence.
+      * rewrite nth_upd_other by auto.
+        destruct FR as [[Lt [[-> Lt'] | [LN [-> Lt']]]] | [Lt [[L' _] | [LN _]]]].
+        -- apply HL; auto.
+        -- simpl in Hj. congruence.
+        -- congruence.
+        -- congruence.
+    + intros p. unfold upd_ps. destruct (Nat.eqb p (proc t)); auto. intros Hp. apply ST. apply (HZ p Hp).
+    + intros p. unfold upd_ps. destruct (Nat.eqb p (proc t)); auto. intros Hp. apply ST. apply (HM p Hp).
+Qed.
+
+Theorem inv_reachable : forall c w, env_ok c -> reachable c w -> Inv c w.
+Proof.
+  intros c w EV R. induction R.
+  - apply inv_init.
+  - eapply inv_step; eauto.
+Qed.
